@@ -100,7 +100,8 @@ PROPS = {
             "refutation: suspicion at k >= own makes the incarnation k+1 (> k), older suspicion leaves it alone, identity kept": "theorem (full below MAX, any codec/oracle): suspicion_is_refuted, refutation_exceeds_suspicion (over the generated comparison table)",
             "Alive about self ignored; reset puts the incarnation back to 0": "theorem (full): alive_about_self_is_ignored, reset_restarts_incarnation",
             "Down about self: Defunct unless a differing, winning renewed identity exists": "theorem (full): no_rejoin_without_winning_identity, down_without_renewal_is_defunct, bump_renews_to_a_winner",
-            "incarnation monotone over whole histories; never fabricates incarnations of others; rejoin gossips Down(old)": "partial: checked by search (oracle with a ghost 'told' map) and correspondence, no whole-history theorem yet",
+            "incarnation never decreases while an identity is in use (whole histories)": "theorem (full, any history of public calls without change_identity/reuse_down_identity, any inputs and RNG; from any state): C10H.incarnation_never_decreases_step, C10H.same_identity_incarnation_monotone, C10H.incarnation_monotone_over_histories (invariant IncInv through every model function, Proofs/IncInv.lean)",
+            "never fabricates incarnations of others; rejoin gossips Down(old)": "partial: checked by search (oracle with a ghost 'told' map) and correspondence, no whole-history theorem yet",
         },
         RULE_HIST + "search: per-call oracle over the boundary incarnations 0/1/65534/65535, suspicions older/equal/newer than own, all four renew policies (none, bump, same, lose).",
         ["histories stop being judged after an Encode error (header larger than max_packet_size)"],
